@@ -142,6 +142,7 @@ def hdrP : P String := do
   let h : Header := ⟨version, len, tos, totalLen, id, flags, fragOff, ttl, protocol, cksum, src, dst, options⟩
   match h.marshal with
   | .error .tooShort => pure "merr-short"
+  | .error .invalidOptions => pure "merr-opt"
   | .error _ => pure "merr-addr"
   | .ok wire =>
     let back := match parseHeader wire with
